@@ -13,13 +13,13 @@ CHECKS = {
     },
     "C02": {
         "technique": "TLA+ spec (TermAlgebra.tla: set-valued denotation + transcription of the operator overloads) model checked with TLC over every formula up to an operator bound; each exported formula replayed into model_description; random deeper formulas judged by TLC (TermAlgebra_Trace)",
-        "text": "Bounded-exhaustive: a stack machine enumerates every formula of the documented language (term expressions over + - : * / **, intercept literals as additive items of the right-hand side and of effect sides, group terms) up to 4 operators over 3 atoms incl. a call with a literal argument (quick: 135k formulas; thorough: 4 atoms, and 5 operators over 2 atoms); TLC checks that the class-by-class transcription of terms.py (terms compared as sets of components, as the code does since the term-identity repair) refines the set semantics outside one named deviation class; every formula is then resolved by the real code, with and without response, and compared with the Abs denotation. Random formulas of depth <= 7 with up to 5 additive items are resolved by the real code and judged by TLC.",
+        "text": "Bounded-exhaustive: a stack machine enumerates every formula of the documented language (term expressions over + - : * / **, intercept literals as additive items of the right-hand side and of effect sides, group terms) up to 4 operators over 3 atoms incl. a call with a literal argument (quick: 135k formulas; thorough: 4 atoms, and 5 operators over 2 atoms); TLC checks that the class-by-class transcription of terms.py (terms compared as sets of components, as the code does since the term-identity repair) refines the set semantics outside one named deviation class; every formula is then resolved by the real code, with and without response, and compared with the Abs denotation. Random formulas of depth <= 7 with up to 5 additive items are resolved by the real code and judged by TLC. The name of every term must spell exactly its factors, each once.",
         "ref": "DESIGN.md §3.4, §4 C02",
         "note": "Trusted: TLC, fv/project.py:model_abs, the renderer in fv/drivers/c02.py. A term is the set of its factors (a:b = b:a), for the code as for the specification; '-' applied to a chain without a term and effect sides that denote nothing are outside the domain. Open finding KF_C02_late_literal.",
     },
     "C04": {
-        "technique": "TLA+ spec (Design.tla: cell-level meaning of labels, label order, slices) model checked with TLC on a small scope; every TLC-generated (frame, formula) case replayed into design_matrices and compared cell by cell; recorded builds on random frames judged by TLC (Design_Trace)",
-        "text": "TLC enumerates every frame of the small scope (3-4 rows, factors with up to 3 levels) x 18 formula shapes (incl. nesting f/g, group terms of two factors, subset-notation responses), checks the Abs design function's theorems and exports the complete expected design (labels, cells, slices); the real code is run on each and must agree exactly. Random worlds (3-30 rows; factors stored as object / pandas string / Categorical / ordered Categorical / integer-via-C columns, integers stored as int64 / float64 / nullable Int64, unequal level counts, numeric calls, interactions up to arity 3 in random factor order, group terms) are built by the real code and every recorded design is judged by TLC: each cell equals the meaning of its label, labels and columns agree in number and order, levels sorted or as declared, cartesian label order with the first factor slowest. The same designs are then evaluated on new data (all training rows, reordered and partly repeated) and the resulting matrices are judged against the same labels.",
+        "technique": "TLA+ specs (Design.tla: cell-level meaning of labels, label order, slices; CallKinds.tla: kind, coding and level order of the value a call returns; DesignOrder.tla: column order of interactions) model checked with TLC on a small scope; every TLC-generated (frame, formula) case replayed into design_matrices and compared cell by cell; recorded builds on random frames judged by TLC (Design_Trace)",
+        "text": "TLC enumerates every frame of the small scope (3-4 rows, factors with up to 3 levels) x 18 formula shapes (incl. nesting f/g, group terms of two factors, subset-notation responses), checks the Abs design function's theorems and exports the complete expected design (labels, cells, slices); the real code is run on each and must agree exactly. Random worlds (3-30 rows; factors stored as object / pandas string / Categorical / ordered Categorical / integer-via-C columns, integers stored as int64 / float64 / nullable Int64, unequal level counts, numeric calls, interactions up to arity 3 in random factor order, group terms) are built by the real code and every recorded design is judged by TLC: each cell equals the meaning of its label, labels and columns agree in number and order, levels sorted or as declared, cartesian label order with the first factor slowest. The same designs are then evaluated on new data (all training rows, reordered and partly repeated) and the resulting matrices are judged against the same labels; other designs are read only after they were evaluated and printed on frames with never-seen levels. CallKinds_MC: every type of value a callee may return (1- and 2-column arrays, numeric and boolean Series, strings, unordered / ordered categoricals, CategoricalBox with default / Sum / explicit levels, list, dict, None, scalar) x with / without intercept is returned by a user callee in a formula and the columns must be those of the specified coding and level order, at training time and on new data.",
         "ref": "DESIGN.md §3.7, §4 C04",
         "note": "Trusted: TLC, fv/design.py and fv/gen.py (materialisation of abstract frames, parsing of label strings with the generator's name tables). Integer-valued data only (exact products). Builds that raise are counted, not judged here.",
     },
@@ -31,7 +31,7 @@ CHECKS = {
     },
     "C15": {
         "technique": "TLA+ spec (Design.tla response meaning; Design_Trace judge with build / rows / refuse events) checked with TLC; small-scope cases replayed; recorded response forms judged by TLC",
-        "text": "Small-scope S->C incl. a categorical response; recorded builds with numeric / str / Categorical / ordered / call responses judged cell by cell; subset notation y[ident], y['quoted'], y[\"quoted\"] must be 1 exactly where y equals the level, also for a level that never occurs, is a declared but unobserved category, or occurs only on dropped rows (an all-zero column); prop/p/proportion with column or constant trials must give successes and trials and refuse invalid data; predictors must be identical under a different response (rows relation judged by TLC); multi-term responses must be refused; no response => no response matrix; missing values in columns the formula does not use must not cost the response a row (response part judged alone).",
+        "text": "Small-scope S->C incl. a categorical response; recorded builds with numeric / str / Categorical / ordered / call responses judged cell by cell; subset notation y[ident], y['quoted'], y[\"quoted\"] must be 1 exactly where y equals the level, also for a level that never occurs, is a declared but unobserved category, or occurs only on dropped rows (an all-zero column); prop/p/proportion with column or constant trials must give successes and trials and refuse invalid data; predictors must be identical under a different response (rows relation judged by TLC); multi-term responses must be refused; no response => no response matrix; CallKinds_MC: every type of value a callee may return, used as the response (factor-valued results give one indicator per level in sorted / declared / given order, prop only as response, offset refused); missing values in columns the formula does not use must not cost the response a row (response part judged alone).",
         "ref": "DESIGN.md §3.7, §4 C15",
         "note": "Trusted: as C04; the label of a subset-notation response is taken from the formula text.",
     },
@@ -43,13 +43,13 @@ CHECKS = {
     },
     "C06": {
         "technique": "TLA+ theorem SubsetReproduces (Design_MC) model checked with TLC over every row sequence of small training frames and replayed through evaluate_new_data; recorded evaluations of random designs on row multisets judged by TLC (rows relation on value ids)",
-        "text": "TLC enumerates every row sequence (length <= 2 quick, <= 3 thorough) of every small-scope training frame x 13 formula shapes, proves that the Abs evaluation on those rows equals the corresponding rows of the training matrices, and each case is replayed through CommonEffectsMatrix/GroupEffectsMatrix.evaluate_new_data. Random worlds x formulas with nested and interacting stateful transforms (center, scale, standardize, bs, poly, binary/B), C/T/S codings incl. levels=, ordered categoricals and group terms are evaluated on subsets, permutations, repetitions, single rows and single-level subsets of their training frame; TLC judges result[i] = training[sel[i]] on interned values and equal slices.",
+        "text": "TLC enumerates every row sequence (length <= 2 quick, <= 3 thorough) of every small-scope training frame x 13 formula shapes, proves that the Abs evaluation on those rows equals the corresponding rows of the training matrices, and each case is replayed through CommonEffectsMatrix/GroupEffectsMatrix.evaluate_new_data. Random worlds x formulas with nested and interacting stateful transforms (center, scale, standardize, bs, poly, binary/B), C/T/S codings incl. levels=, ordered categoricals and group terms are evaluated on subsets, permutations, repetitions, single rows and single-level subsets of their training frame; TLC judges result[i] = training[sel[i]] on interned values and equal slices; frame objects that were evaluated before and refilled in place are among the selections. CallKinds_MC: new data take the path of the kind decided at training time (SamePath, KindFixed).",
         "ref": "DESIGN.md §4 C06",
         "note": "Trusted: TLC, fv/rows.py (value interning at 1e-9 relative tolerance). Inputs on which poly/bs are degenerate (fewer distinct values than the degree needs) are not generated.",
     },
     "C08": {
         "technique": "TLA+ action property PermEquivariant (Design_MC) model checked with TLC over all permutations of small frames and replayed; recorded pairs of builds on transformed frames judged by TLC (rows relation)",
-        "text": "TLC proves on every small-scope frame and every non-identity permutation that the Abs design of the permuted frame is the row-permuted design with identical labels and slices, and every permuted frame is replayed into design_matrices. Random worlds x formulas (stateful transforms, codings, group terms, categorical responses) are built on the frame and on a copy with permuted rows, a non-unique / float / unsorted / reset index, shuffled columns and unused columns added (incl. NA) or dropped; TLC judges b[i] = a[perm[i]] on interned values with equal labels, levels and slices.",
+        "text": "TLC proves on every small-scope frame and every non-identity permutation that the Abs design of the permuted frame is the row-permuted design with identical labels and slices, and every permuted frame is replayed into design_matrices. Random worlds x formulas (stateful transforms, codings, group terms, categorical responses) are built on the frame and on a copy with permuted rows, a non-unique / float / unsorted / reset index, shuffled columns and unused columns added (incl. NA) or dropped (also for formulas that name no column of the frame); TLC judges b[i] = a[perm[i]] on interned values with equal labels, levels and slices.",
         "ref": "DESIGN.md §4 C08",
         "note": "Trusted: TLC, fv/rows.py. Equality up to 1e-9 relative (summation order changes the last bits of fitted means).",
     },
@@ -79,7 +79,7 @@ CHECKS = {
     },
     "C13": {
         "technique": "TLA+ spec (Coding.tla: validity predicates with exact fraction-free ranks = Abs; index-formula transcription of categorical.py = Impl) model checked with TLC for every size and reference; spec matrices compared with the real Treatment/Sum objects; real matrices judged by TLC; option handling replayed through design_matrices against the spec's matrices; interchangeability through Contrasts.tla + exact ranks",
-        "text": "TLC proves for every n <= 8 (quick) / 12 (thorough) and every reference / omitted level that the transcribed constructions satisfy the validity predicates (indicator columns with zero reference row; zero column sums with the omitted level coded -1; k = n-1; rank n together with the constant; full codings of rank n; labels name the levels) and the real Treatment/Sum outputs must equal the spec's matrices; the real matrices for n <= 12 are judged by TLC directly. Every permutation of <= 4 (5) levels passed as levels= x every reference x string and integer level values (incl. 0, not in first place) x 10 spellings of C/T/S (incl. defaults and the T = C(Treatment), S = C(Sum) synonyms) x with/without intercept is built by the real code and compared with the spec's rows and level labels. Swapping codings never changes the column space: C03's exact-rank replay with variable / C / T(ref) / S / C(Sum) atoms, on integer and on quarter-valued numeric columns.",
+        "text": "TLC proves for every n <= 8 (quick) / 12 (thorough) and every reference / omitted level that the transcribed constructions satisfy the validity predicates (indicator columns with zero reference row; zero column sums with the omitted level coded -1; k = n-1; rank n together with the constant; full codings of rank n; labels name the levels) and the real Treatment/Sum outputs must equal the spec's matrices (string and integer level values; an encoding object used for another level list first must behave like a fresh one); the real matrices for n <= 12 are judged by TLC directly. Every permutation of <= 4 (5) levels passed as levels= x every reference x string and integer level values (incl. 0, not in first place) x 10 spellings of C/T/S (incl. defaults and the T = C(Treatment), S = C(Sum) synonyms) x with/without intercept is built by the real code and compared with the spec's rows and level labels. Swapping codings never changes the column space: C03's exact-rank replay with variable / C / T(ref) / S / C(Sum) atoms, on integer and on quarter-valued numeric columns.",
         "ref": "DESIGN.md §3.6, §4 C13",
         "note": "Trusted: TLC integer arithmetic (32-bit; determinants of 0/±1 matrices up to 13x13 stay far below 2^31), fv/rank.py.",
     },
@@ -91,7 +91,7 @@ CHECKS = {
     },
     "C12": {
         "technique": "TLA+ spec (PyExpr.tla: Python's expression grammar = Abs; Grammar.tla's transcription of the formula parser = Impl) model checked with TLC (difference theorem) over every short argument token string; each Python expression replayed through formulae and through CPython's eval with recording operands; recorded evaluations of random expressions judged by TLC (PyExpr_Trace); spec tree cross-checked with the ast module",
-        "text": "TLC enumerates every token string up to 5 tokens over {name, number, + - * / ** ( ) <} and up to 7 tokens over {name, number, + * ** ( )} (1.07M strings), proves that every expression of the Python fragment is accepted by the formula parser and that the two trees differ exactly on the PowIssue class, and exports the Python expressions; each is evaluated with recording operands inside a call through formulae and with eval(), and the received operator trees / constant values must be equal; the term name must be whitespace-invariant and spell the same Python AST as the source. Random expressions of depth <= 6 with random whitespace are evaluated by the real code and the received tree is judged by TLC against Python's tree. Literals (int/float/str/True/False/None), keyword arguments, nested calls, quote style, {e} = I(e) and names bound to None / 0 / False / '' / [] (passed as they are, also when a local shadows an outer binding) are checked on fixed cases.",
+        "text": "TLC enumerates every token string up to 5 tokens over {name, number, + - * / ** ( ) <} and up to 7 tokens over {name, number, + * ** ( )} (1.07M strings), proves that every expression of the Python fragment is accepted by the formula parser and that the two trees differ exactly on the PowIssue class, and exports the Python expressions; each is evaluated with recording operands inside a call through formulae and with eval(), and the received operator trees / constant values must be equal; the term name must be whitespace-invariant and spell the same Python AST as the source. Random expressions of depth <= 6 with random whitespace are evaluated by the real code and the received tree is judged by TLC against Python's tree. Literals (int/float/str/True/False/None), keyword arguments, nested calls, quote style, {e} = I(e) and names bound to None / 0 / False / '' / [] (passed as they are, also when a local shadows an outer binding) and dotted callees whose attributes are reassigned or whose object is replaced between two builds are checked on fixed cases.",
         "ref": "DESIGN.md §3.3, §4 C12",
         "note": "Trusted: the recording operand class (comparisons with a constant on the left are reflected by Python and excluded), CPython's eval/ast as ground truth. Chained comparisons, keyword repetition and unsupported operators are outside the domain. Open finding KF_C12_pow.",
     },
@@ -102,7 +102,7 @@ CHECKS = {
         "note": "NOT decided by this technique: accuracy of bs / poly under large offsets / ill-conditioning, degree > 3, long vectors (TLC has 32-bit integers and no floats). Irrational outputs (scale, orthonormal poly) are compared through their squares and signs. Open finding KF_C14_knot_at_upper_bound.",
     },
     "C16": {
-        "technique": "TLA+ spec (Helpers.tla: binary / offset / prop as train-then-predict state machines, pointwise meaning and frozen success level as invariants) model checked with TLC on every small case, each terminal state replayed through formulas into design_matrices / evaluate_new_data; recorded helper calls on random worlds judged by TLC (Design_Trace build / unseen / rows / refuse clauses over Design.tla's label meaning)",
+        "technique": "TLA+ spec (Helpers.tla: binary / offset / prop as train-then-predict state machines, pointwise meaning and frozen success level as invariants) model checked with TLC on every small case, each terminal state replayed through formulas into design_matrices / evaluate_new_data; CallKinds.tla for the roles of offset and prop; recorded helper calls on random worlds judged by TLC (Design_Trace build / unseen / rows / refuse clauses over Design.tla's label meaning)",
         "text": "TLC enumerates every training column of <= 3 rows over 3 values x every success level / constant / trials argument (omitted, occurring, never occurring) x every new column of <= 2 (thorough 3) rows over 4 values (incl. unseen), proves Meaning, BinaryPointwise, NewShape and the action property Frozen on the object-level machine and exports each terminal state; every case is written as a formula (integer and string renderings, B/binary, prop/p/proportion, positional and keyword spellings), built and evaluated on the new frame by the real code and compared with the spec's columns and refusals. Random worlds, one helper per event: binary/B with explicit and default success level on str and numeric variables (and new frames lacking that level), offset of a column, a call and positive / negative / float constants (training and new frames with changed values), prop/p/proportion with positional, keyword and constant trials (training response; trials of the new frame at prediction), I(e)/{e}; alias pairs (B=binary, p=prop=proportion, standardize=scale, T(x,r)=C(x,Treatment(r)), S(x,o)=C(x,Sum(o))) as row relations; invalid arguments (success level absent in training, successes > trials, fractional successes, offset as response, prop as predictor, offset of a factor) must be refused. TLC evaluates the meaning of each column's label on the recorded frame and compares every cell.",
         "ref": "DESIGN.md §4 C16",
         "note": "Trusted: the label assigned to a helper's column by fv/drivers/c16.py (taken from the statement); integer data.",
